@@ -217,6 +217,8 @@ __CPROVER_ensures((NV_OKAY && NV_AVAIL0 >= 4) ==> (string->n == NV_LE32(stream, 
 __CPROVER_ensures((NV_OKAY && nv_k < string->n) ==> (int64_t)string->kcell == nv_kval) \
 __CPROVER_ensures((!nv_thrown && NV_AVAIL0 >= 4 && NV_AVAIL0 < 4 + (int64_t)NV_LE32(stream, NV_SP0)) ==> stream->fail) \
 __CPROVER_ensures(NV_OKAY ==> nv_nfields == __CPROVER_old(nv_nfields) + 1 + string->n) \
+/* a stream without a complete length field leaves the string alone (no resize to a garbage length) */ \
+__CPROVER_ensures((__CPROVER_old(stream->fail) || NV_AVAIL0 < 4) ==> string->n == __CPROVER_old(string->n)) \
 NV_IS_FRAME
 #define NV_LOOP_read_string_1 \
 __CPROVER_assigns(__begin1.i, stream->pos, stream->fail, string->kcell, string->other, nv_gh) \
@@ -240,6 +242,8 @@ __CPROVER_ensures((NV_OKAY && NV_AVAIL0 >= 8) ==> (values->n == NV_LE64(stream, 
 __CPROVER_ensures((NV_OKAY && nv_k < values->n) ==> (int64_t)values->kcell == nv_kval) \
 __CPROVER_ensures((!nv_thrown && NV_AVAIL0 >= 8 && (NV_LE64(stream, NV_SP0) > NV_MAXBYTES / 4 || NV_AVAIL0 < 8 + 4 * (int64_t)NV_LE64(stream, NV_SP0))) ==> stream->fail) \
 __CPROVER_ensures(NV_OKAY ==> nv_nfields == __CPROVER_old(nv_nfields) + 1 + values->n) \
+/* a stream without a complete count field leaves the vector alone (no resize to a garbage count) */ \
+__CPROVER_ensures((__CPROVER_old(stream->fail) || NV_AVAIL0 < 8) ==> values->n == __CPROVER_old(values->n)) \
 NV_IS_FRAME
 #define NV_LOOP_read_vec_i32_1 \
 __CPROVER_assigns(__begin0.i, stream->pos, stream->fail, values->kcell, values->other, nv_gh) \
